@@ -297,9 +297,11 @@ static void sigpost_handler(int sig)
 	if (!o->reg || o->mem == NULL)
 		return;
 	tr("\"e\":\"PostB\",\"k\":\"raw\",\"o\":%d,\"n\":1}", sigpost_target);
+	if (memrec_words) sync_log("acq", 2000 + K_RAW * 16 + sigpost_target);
 	o->inpost++;
 	iv_event_raw_post(o->mem);
 	o->inpost--;
+	if (memrec_words) sync_log("rel", 3000 + K_RAW * 16 + sigpost_target);
 }
 
 static void sig_cb(void *c) { cb_common(c, K_SIG, 0, ((struct cookie *)c)->id); }
@@ -395,7 +397,7 @@ static void do_op(struct op *p)
 	 * use happens-before unregistration */
 	int hk = -1, hreg = 0, huse = 0, hunreg = 0, gk = -1;
 	if (memrec_words) {
-		if (!strncmp(n, "ev_", 3)) hk = K_EV; else if (!strncmp(n, "raw_", 4)) hk = K_RAW;
+		if (!strncmp(n, "ev_", 3)) hk = K_EV; else if (!strncmp(n, "raw_", 4) || !strcmp(n, "childpost")) hk = K_RAW;
 		else if (!strncmp(n, "pool_", 5)) hk = K_POOL;
 		else if (!strncmp(n, "submit", 6)) { hk = K_POOL; }
 		hreg = !strcmp(n, "ev_reg") || !strcmp(n, "raw_reg") || !strcmp(n, "pool_create");
